@@ -1761,6 +1761,11 @@ func (n *node) spawnMember(factory gen.ProcessFactory, options gen.ProcessOption
 		// Children spawned with the LinkParent option only (workers of act.Pool)
 		// are the consumers of this pid
 		n.RouteTerminatePID(p.pid, err)
+		if p.registered.Load() {
+			// the name has been visible since the start of spawn: tell those who
+			// linked/monitored it meanwhile (the name is deleted above, before the drain)
+			n.RouteTerminateProcessID(gen.ProcessID{Name: p.name, Node: n.name}, err)
+		}
 
 		// terminate meta process that spawned during initialization
 
